@@ -168,6 +168,39 @@ func (r *Rec) WriteBitString(bits string) {
 	r.emit(ev.M{"k": "WriteBitString", "bits": bits}, r.t.WriteBitString(src))
 }
 
+// Append: a nested bit string appended to a growing bit string (BitString objects only): all of its bits, wherever its own
+// read cursor is; the capacity grows as far as needed.
+func (r *Rec) Append(bits string, srcRead int) {
+	if r.bs == nil {
+		r.WriteBitString(bits)
+		return
+	}
+	src := boc.NewBitString(len(bits) + 8*(srcRead%3)) // sometimes with spare capacity
+	for _, c := range bits {
+		if err := src.WriteBit(c == '1'); err != nil {
+			panic(err)
+		}
+	}
+	if srcRead > len(bits) {
+		srcRead = len(bits)
+	}
+	if srcRead > 0 {
+		src.Skip(srcRead)
+	}
+	r.bs.Append(src)
+	r.emit(ev.M{"k": "Append", "bits": bits, "srcread": srcRead}, nil)
+}
+
+// growResult appends to a bit string a read RETURNED: the result is a value of its own, the source must not change
+// (the event's recorded state is taken afterwards).
+func growResult(v *boc.BitString) {
+	ones := boc.NewBitString(24)
+	for i := 0; i < 24; i++ {
+		_ = ones.WriteBit(true)
+	}
+	v.Append(ones)
+}
+
 func (r *Rec) ReadBit() {
 	b, err := r.t.ReadBit()
 	r.emit(ev.M{"k": "ReadBit", "out": strconv.Itoa(b2i(b))}, err)
@@ -215,12 +248,15 @@ func (r *Rec) ReadBits(n int) {
 	out := ""
 	if err == nil {
 		out = v.BinaryString()
+		growResult(&v)
 	}
 	r.emit(ev.M{"k": "ReadBits", "n": n, "out": out}, err)
 }
 func (r *Rec) ReadRemainingBits() {
 	v := r.t.ReadRemainingBits()
-	r.emit(ev.M{"k": "ReadRemainingBits", "out": v.BinaryString()}, nil)
+	out := v.BinaryString()
+	growResult(&v)
+	r.emit(ev.M{"k": "ReadRemainingBits", "out": out}, nil)
 }
 func (r *Rec) ReadUnary() {
 	v, err := r.t.ReadUnary()
@@ -579,7 +615,7 @@ func randBig(rng *rand.Rand, w int, signed bool) *big.Int {
 // RandomOps performs n random in-domain operations.
 func RandomOps(r *Rec, rng *rand.Rand, n int) {
 	for i := 0; i < n; i++ {
-		switch rng.Intn(35) {
+		switch rng.Intn(38) {
 		case 0:
 			r.WriteBit(rng.Intn(2) == 1)
 		case 1, 2:
@@ -667,6 +703,11 @@ func RandomOps(r *Rec, rng *rand.Rand, n int) {
 			r.CopyRemaining()
 		case 34:
 			r.TopUp()
+		case 35, 36:
+			bits := Pattern(1+rng.Intn(4), 1+rng.Intn(40), rng)
+			r.Append(bits, rng.Intn(len(bits)+1))
+		case 37: // whole bytes at a byte boundary, then the result is grown
+			r.ReadBits(8 * (1 + rng.Intn(3)))
 		}
 	}
 }
